@@ -407,6 +407,7 @@ func c02Widening(c *Ctx, r *Report) {
 		r.fail("C02-R8-widening", "parseDataFields", "", "not found")
 		return
 	}
+	c.inlineTypeAccessorLocals(fd)
 	// (a) no ascending overlapping self-copy anywhere in the decoder
 	for _, fname := range []string{"decoder.parseDataFields", "decoder.parseFitField", "decoder.parseFitFieldArray", "decoder.parseTimeStamp", "decoder.parseDefinitionMessage"} {
 		f2 := c.decl(c.fn(c.fit, fname))
